@@ -306,6 +306,36 @@ def conversion_scope(ctx, py: PyRepo):
                 axv = key[:-len('.ordinal')]
                 keyed = any(isinstance(n.targets[0], ast.Name) and n.targets[0].id == axv and isinstance(n.value, ast.Call)
                             and n.value.args and ast.unparse(n.value.args[0]) == pat_var for n in prev)
+            if fresh and not conv and key.endswith('.ordinal'):
+                # the conversion written inside the registration, possibly in the arms of an if / else between the fresh scope and the
+                # store: every binding of the axiom that reaches the store is `<module>.<register>(<..>._convert_pattern(scope, ..))`
+                axv = key[:-len('.ordinal')]
+                idx_ = next((i for i, x in enumerate(blk_) if x is st), 0)
+
+                def reaching(stmts):
+                    """the bindings of axv by the last statement of `stmts` that binds it; None when some path binds it otherwise"""
+                    for x in reversed(stmts):
+                        if isinstance(x, ast.Assign) and len(x.targets) == 1 and isinstance(x.targets[0], ast.Name) and x.targets[0].id == axv:
+                            return [x]
+                        if isinstance(x, ast.AnnAssign) and x.value is None:
+                            continue
+                        if isinstance(x, ast.If) and any(isinstance(y, ast.Name) and y.id == axv and isinstance(y.ctx, ast.Store) for y in ast.walk(x)):
+                            a, b = reaching(x.body), reaching(x.orelse)
+                            return None if a is None or b is None or not a or not b else a + b
+                        if any(isinstance(y, ast.Name) and y.id == axv and isinstance(y.ctx, ast.Store) for y in ast.walk(x)):
+                            return None
+                    return []
+                binds_ = reaching(blk_[:idx_])
+
+                def registers_conversion(a):
+                    c0 = a.value
+                    if not (isinstance(c0, ast.Call) and isinstance(c0.func, ast.Attribute) and len(c0.args) == 1):
+                        return False
+                    arg = c0.args[0]
+                    return isinstance(arg, ast.Call) and ast.unparse(arg.func).endswith('_convert_pattern') and arg.args and ast.unparse(arg.args[0]) == var
+                if binds_ and all(registers_conversion(a) for a in binds_):
+                    made = [i for i, n in enumerate(blk_[:idx_]) if isinstance(n, ast.Assign) and isinstance(n.targets[0], ast.Name) and n.targets[0].id == var]
+                    conv, keyed = binds_, bool(made)
             ctx.ob('scope-per-axiom', f'{mname}@{key}', fresh and bool(conv) and keyed,
                    f'the scope cached under {key} must be a fresh ConvertionScope that was used to convert exactly that axiom '
                    f'(fresh={fresh}, used-for-conversion={bool(conv)}, keyed-by-that-axiom={keyed})', py.where(SEM, st))
@@ -639,9 +669,118 @@ def fresh_scope_converter(m):
     return None
 
 
+def axiom_lookup_closure(ctx, py: PyRepo):
+    """a step names its rule by ordinal; the rule may be declared in any module the main module imports, at any depth.
+    KModule.get_axiom therefore searches its own table and EVERY transitively imported module: a loop over `self.modules` (the
+    closure property - itself a loop over the direct imports that adds the module and the module's own closure), or a loop over the
+    direct imports that asks each for the axiom recursively.  A loop over the direct imports that only looks into their own tables
+    refuses a valid trace whose rule lives two imports down."""
+    km = py.find_class('KModule', SEM)
+    if km is None or 'get_axiom' not in km.methods:
+        return
+    fn = km.methods['get_axiom']
+    where = py.where(SEM, fn)
+    loops = [x for x in ast.walk(fn) if isinstance(x, (ast.For, ast.comprehension))]
+    probs = []
+    n = 0
+    for lp in loops:
+        it = ast.unparse(lp.iter)
+        tgt = lp.target.id if isinstance(lp.target, ast.Name) else None
+        body = lp.body if isinstance(lp, ast.For) else []
+        if 'self.modules' in it:
+            n += 1
+            continue
+        if '_imported_modules' in it:
+            n += 1
+            recursive = any(isinstance(c, ast.Call) and isinstance(c.func, ast.Attribute) and c.func.attr == 'get_axiom'
+                            and isinstance(c.func.value, ast.Name) and c.func.value.id == tgt for b in body for c in ast.walk(b))
+            if not recursive:
+                probs.append(f'the loop over `{it[:50]}` looks only into the direct imports\' own tables')
+    own = any(isinstance(x, ast.Attribute) and x.attr == '_axioms' and isinstance(x.value, ast.Name) and x.value.id == 'self' for x in ast.walk(fn)) \
+        or any('self' in [e.id for e in ast.walk(lp.iter) if isinstance(e, ast.Name)] and isinstance(lp.iter, (ast.Tuple, ast.List)) for lp in loops)
+    if not own:
+        probs.append('the module\'s own axioms are not searched')
+    if n == 0:
+        probs.append('no loop over the imported modules was found')
+    ctx.ob('rewrite-typestate', 'axiom-lookup-reaches-every-import', not probs,
+           'KModule.get_axiom: ' + '; '.join(probs) + ' - a rule declared in a module imported through another module is not found and a '
+           'valid, chaining trace is refused', where)
+    # the closure property itself
+    prop = km.methods.get('modules')
+    if prop is not None:
+        direct = [lp for lp in ast.walk(prop) if isinstance(lp, ast.For) and '_imported_modules' in ast.unparse(lp.iter) and isinstance(lp.target, ast.Name)]
+        ok = False
+        for lp in direct:
+            t = lp.target.id
+            adds_self = any(isinstance(c, ast.Call) and isinstance(c.func, ast.Attribute) and c.func.attr in ('append', 'add') and c.args
+                            and isinstance(c.args[0], ast.Name) and c.args[0].id == t for c in ast.walk(lp))
+            adds_rec = any(isinstance(c, ast.Call) and isinstance(c.func, ast.Attribute) and c.func.attr in ('extend', 'update') and c.args
+                           and ast.unparse(c.args[0]) == f'{t}.modules' for c in ast.walk(lp))
+            ok = ok or (adds_self and adds_rec)
+        if not direct and '_imported_modules' in ast.unparse(prop):
+            # written as comprehensions: some element must be the `modules` of an imported module (the recursion)
+            comps = [g for g in ast.walk(prop) if isinstance(g, ast.comprehension) and '_imported_modules' in ast.unparse(g.iter) and isinstance(g.target, ast.Name)]
+            ok = any(isinstance(x, ast.Attribute) and x.attr == 'modules' and isinstance(x.value, ast.Name) and x.value.id in {g.target.id for g in comps}
+                     for x in ast.walk(prop))
+            direct = comps or [prop]
+        if direct:
+            ctx.ob('rewrite-typestate', 'imports-are-transitive', ok,
+                   'KModule.modules must contain every direct import and that import\'s own `modules` (the transitive closure the lookups '
+                   'range over)', py.where(SEM, prop))
+
+
+def ordinals_in_sentence_order(ctx, py: PyRepo):
+    """the execution trace names a rule by its ordinal: the position of its axiom among ALL axiom sentences of the definition, in
+    sentence order (the numbering the K backend uses).  from_kore_definition therefore takes one ordinal per axiom sentence inside
+    the pass over the sentences - `rewrite_rule(..)` / `equational_rule(..)` for a rule, `next(<module>.counter)` for any other
+    axiom - and nowhere else: rules registered in a later pass get the ordinals that are left over, every rule followed by another
+    axiom is shifted, and a step either finds no rule or claims another rule's rewrite."""
+    from ..core import astpaths as AP
+    sem = py.find_class('LanguageSemantics', SEM)
+    fn = sem.methods.get('from_kore_definition') if sem is not None else None
+    if fn is None:
+        return
+
+    def taker(c):
+        if isinstance(c, ast.Call) and isinstance(c.func, ast.Attribute) and c.func.attr in ('rewrite_rule', 'equational_rule'):
+            return True
+        return isinstance(c, ast.Call) and isinstance(c.func, ast.Name) and c.func.id == 'next' and len(c.args) == 1 \
+            and isinstance(c.args[0], ast.Attribute) and c.args[0].attr == 'counter'
+    loops = [lp for lp in ast.walk(fn) if isinstance(lp, ast.For) and isinstance(lp.target, ast.Name)
+             and any(isinstance(t, ast.Call) and isinstance(t.func, ast.Name) and t.func.id == 'isinstance' and len(t.args) == 2
+                     and isinstance(t.args[0], ast.Name) and t.args[0].id == lp.target.id and ast.unparse(t.args[1]).endswith('Axiom') for t in ast.walk(lp))]
+    if len(loops) != 1:
+        return
+    lp = loops[0]
+    S = lp.target.id
+    inside = {id(x) for x in ast.walk(lp)}
+    outside = [c for c in ast.walk(fn) if taker(c) and id(c) not in inside]
+    probs = []
+    if outside:
+        probs.append(f'`{ast.unparse(outside[0])[:60]}` takes an ordinal outside the pass over the sentences')
+    n = 0
+    for sp in AP.paths(lp.body):
+        if sp.end == 'raise':
+            continue
+        is_ax = next((b for c, b in sp.conds if re.fullmatch(rf'isinstance\({S}, (\w+\.)*Axiom\)', c)), None)
+        k = sum(1 for a in sp.actions for c in ast.walk(a) if taker(c))
+        if is_ax is True:
+            n += 1
+            if k != 1:
+                probs.append(f'an axiom sentence takes {k} ordinals on the path under ' + ' and '.join(c for c, b in sp.conds if b)[:120])
+        elif k:
+            probs.append('a sentence that is not an axiom takes an ordinal')
+    if n:
+        ctx.ob('rewrite-typestate', 'ordinals-in-sentence-order', not probs,
+               'from_kore_definition: ' + '; '.join(sorted(set(probs))) + ' - the ordinal a trace names no longer denotes the rule that was '
+               'applied', py.where(SEM, lp))
+
+
 def run(ctx):
     py = PyRepo.get()
     rewrite_event(ctx, py)
+    axiom_lookup_closure(ctx, py)
+    ordinals_in_sentence_order(ctx, py)
     conversion_keeps_component_order(ctx, py)
     trace_pairs(ctx, py)
     conversion_scope(ctx, py)
